@@ -157,6 +157,36 @@ def run(ctx):
                 ctx.count("shape_runs")
             except Exception as e:
                 bad = "contract_core raised %r" % (e,)
+        # ---- a tree and the copies made from it report independently --------------------
+        if not bad and ci % 2 == 1:
+            try:
+                present = sorted({ix for t in inputs for ix in t})
+                cand = [ix for ix in present if ix not in tree.sliced_inds]
+                if tree.sliced_inds and (not cand or rng.random() < 0.4):
+                    ix2 = rng.choice(list(tree.sliced_inds))
+                    t2 = tree.restore_ind(ix2)
+                    rem2 = [(a, b) for a, b in sl if a != ix2]
+                    ctx.count("copy_unslice")
+                elif cand:
+                    ix2 = rng.choice(cand)
+                    t2 = tree.remove_ind(ix2)
+                    rem2 = sl + [(ix2, None)]
+                    ctx.count("copy_slice")
+                else:
+                    t2 = None
+                if t2 is not None:
+                    for tt, rem in ((t2, rem2), (tree, sl)):
+                        sp = oracle.spec_costs(inputs, output, size_dict, gen.tree_nested(tt), [a for a, _ in rem],
+                                               [a for a, b in rem if b is not None])
+                        st = tt.contract_stats()
+                        if (sp["flops"], sp["write"], sp["size"]) != (st["flops"], st["write"], st["size"]) \
+                                or tt.max_size() != sp["size"]:
+                            bad = "after a non-inplace change of a copy, %s reports %r (max_size %r) but the definition gives %r" % (
+                                "the copy" if tt is t2 else "the original", st, tt.max_size(),
+                                {k: sp[k] for k in ("flops", "write", "size")})
+                            rec = dict(rec, then=("restore_ind" if len(rem2) < len(sl) else "remove_ind", ix2))
+            except Exception as e:
+                bad = "non-inplace remove/restore raised %r" % (e,)
         if bad:
             ctx.fail(bad, rec)
 
